@@ -1,0 +1,126 @@
+//go:build verif
+
+package secp256k1
+
+// Verification hooks (build tag `verif`).  These only expose internal
+// state and unexported helpers to the external runtime monitors; none
+// of them is called by library code.
+
+import (
+	fiat "gitlab.com/yawning/secp256k1-voi/internal/fiat/secp256k1montgomeryscalar"
+	"gitlab.com/yawning/secp256k1-voi/internal/field"
+	"gitlab.com/yawning/secp256k1-voi/internal/swu"
+)
+
+// VerifFieldElement re-exports the internal field element type (and
+// with it every exported method of field.Element).
+type VerifFieldElement = field.Element
+
+// VerifNewFieldElement returns a new zero field element.
+func VerifNewFieldElement() *VerifFieldElement { return field.NewElement() }
+
+// VerifNewFieldElementFromUint64 exposes field.NewElementFromUint64.
+func VerifNewFieldElementFromUint64(l0 uint64) *VerifFieldElement {
+	return field.NewElementFromUint64(l0)
+}
+
+// VerifNewFieldElementFrom exposes field.NewElementFrom.
+func VerifNewFieldElementFrom(o *VerifFieldElement) *VerifFieldElement {
+	return field.NewElementFrom(o)
+}
+
+// VerifNewFieldElementFromCanonicalBytes exposes field.NewElementFromCanonicalBytes.
+func VerifNewFieldElementFromCanonicalBytes(src *[32]byte) (*VerifFieldElement, error) {
+	return field.NewElementFromCanonicalBytes(src)
+}
+
+// VerifFieldBytesAreCanonical exposes field.BytesAreCanonical.
+func VerifFieldBytesAreCanonical(src *[32]byte) bool { return field.BytesAreCanonical(src) }
+
+// VerifFieldReduceSaturated exposes field.reduceSaturated.
+func VerifFieldReduceSaturated(dst, src *[4]uint64) uint64 {
+	return field.VerifReduceSaturated(dst, src)
+}
+
+// VerifFiatField exposes the raw fiat entry points of the base field.
+func VerifFiatField(op string, out, a, b *[4]uint64, c uint64) bool {
+	return field.VerifFiat(op, out, a, b, c)
+}
+
+// VerifRaw returns the raw projective coordinates (Montgomery limbs)
+// and the validity flag.
+func (v *Point) VerifRaw() (x, y, z [4]uint64, valid bool) {
+	return v.x.VerifRawLimbs(), v.y.VerifRawLimbs(), v.z.VerifRawLimbs(), v.isValid
+}
+
+// VerifSetRaw is an unchecked projective constructor.
+func (v *Point) VerifSetRaw(x, y, z [4]uint64, valid bool) *Point {
+	v.x.VerifSetRawLimbs(x)
+	v.y.VerifSetRawLimbs(y)
+	v.z.VerifSetRawLimbs(z)
+	v.isValid = valid
+	return v
+}
+
+// VerifSetProjective is an unchecked projective constructor taking
+// field elements.
+func (v *Point) VerifSetProjective(x, y, z *VerifFieldElement) *Point {
+	v.x.Set(x)
+	v.y.Set(y)
+	v.z.Set(z)
+	v.isValid = true
+	return v
+}
+
+// VerifRawLimbs returns the Montgomery-domain limbs exactly as stored.
+func (s *Scalar) VerifRawLimbs() [4]uint64 { return [4]uint64(s.m) }
+
+// VerifSetRawLimbs overwrites the Montgomery-domain limbs.
+func (s *Scalar) VerifSetRawLimbs(l [4]uint64) *Scalar {
+	s.m = fiat.MontgomeryDomainFieldElement(l)
+	return s
+}
+
+// VerifScalarReduceSaturated exposes the scalar reduceSaturated.
+func VerifScalarReduceSaturated(dst, src *[4]uint64) uint64 {
+	return reduceSaturated(dst, src)
+}
+
+// VerifFiatScalar exposes the raw fiat entry points of the scalar field.
+func VerifFiatScalar(op string, out, a, b *[4]uint64, c uint64) bool {
+	switch op {
+	case "mul":
+		fiat.Mul((*fiat.MontgomeryDomainFieldElement)(out), (*fiat.MontgomeryDomainFieldElement)(a), (*fiat.MontgomeryDomainFieldElement)(b))
+	case "square":
+		fiat.Square((*fiat.MontgomeryDomainFieldElement)(out), (*fiat.MontgomeryDomainFieldElement)(a))
+	case "add":
+		fiat.Add((*fiat.MontgomeryDomainFieldElement)(out), (*fiat.MontgomeryDomainFieldElement)(a), (*fiat.MontgomeryDomainFieldElement)(b))
+	case "sub":
+		fiat.Sub((*fiat.MontgomeryDomainFieldElement)(out), (*fiat.MontgomeryDomainFieldElement)(a), (*fiat.MontgomeryDomainFieldElement)(b))
+	case "opp":
+		fiat.Opp((*fiat.MontgomeryDomainFieldElement)(out), (*fiat.MontgomeryDomainFieldElement)(a))
+	case "tomont":
+		fiat.ToMontgomery((*fiat.MontgomeryDomainFieldElement)(out), (*fiat.NonMontgomeryDomainFieldElement)(a))
+	case "frommont":
+		fiat.FromMontgomery((*fiat.NonMontgomeryDomainFieldElement)(out), (*fiat.MontgomeryDomainFieldElement)(a))
+	case "selectznz":
+		fiat.Selectznz(out, fiat.Uint64ToUint1(c), a, b)
+	case "nonzero":
+		fiat.Nonzero(&out[0], a)
+	case "setone":
+		fiat.SetOne((*fiat.MontgomeryDomainFieldElement)(out))
+	default:
+		return false
+	}
+	return true
+}
+
+// VerifSWUMap exposes swu.MapToCurveSimpleSWU.
+func VerifSWUMap(u *VerifFieldElement) (*VerifFieldElement, *VerifFieldElement) {
+	return swu.MapToCurveSimpleSWU(u)
+}
+
+// VerifSWUIsoMap exposes swu.IsoMap.
+func VerifSWUIsoMap(x, y *VerifFieldElement) (*VerifFieldElement, *VerifFieldElement, uint64) {
+	return swu.IsoMap(x, y)
+}
